@@ -7,6 +7,8 @@ import time
 import vlib
 from vlib import log
 
+PROPS = ["C01", "C03", "C04", "C08"]
+
 ASSUME = [
     "engine T serialises the runtime at poll granularity (one task poll = one step); interleavings inside a poll "
     "(two OS threads in synchronous code) are covered by the specification's free interleaving in M and by engine H "
